@@ -49,6 +49,7 @@ except Exception: m = {}
 m["confirmed_by_main_session"] = {"tests_with_change": t1.strip(), "demo_exit_with_change": int(d1), "demo_exit_without_change": int(d0),
     "procedure": "in the scratch worktree: make + ./test-btcdeb + demo with the patch applied, git apply -R + make + demo without; then git -C /repo apply patch.diff; ./vcheck <id>; git -C /repo checkout -- ."}
 m["checks_run_against_it"] = json.loads(res)
+m["checks"] = [x["check"] for x in m["checks_run_against_it"]]   # tools/run_seeded.py re-runs these
 json.dump(m, open(p, "w"), indent=1)
 EOF
 git -C /repo worktree remove --force "$WT" 2>/dev/null; git -C /repo worktree prune
